@@ -15,6 +15,8 @@ import (
 	"strings"
 	"time"
 
+	pbredis "github.com/samaritan-proxy/samaritan/pb/config/protocol/redis"
+
 	"verifharness/internal/cli"
 	"verifharness/internal/resp"
 	"verifharness/internal/simredis"
@@ -66,7 +68,33 @@ func bigBytes(b big) []byte {
 	return nil
 }
 
+type cpsReply struct {
+	Shape string `json:"shape"`
+	Val   string `json:"val"`
+}
+
+func cpsBytes(c cpsReply) []byte {
+	val := strings.NewReplacer("{00}", "\x00", "{01}", "\x01", "{ff}", "\xff").Replace(c.Val)
+	switch c.Shape {
+	case "bulk":
+		return resp.Bytes(resp.BulkS(val))
+	case "pair":
+		return resp.Bytes(resp.Arr(resp.BulkS(val), resp.BulkS("plain")))
+	case "nested":
+		return resp.Bytes(resp.Arr(resp.Arr(resp.BulkS(val))))
+	case "simple":
+		return resp.Bytes(resp.Simple(val))
+	default:
+		return resp.Bytes(resp.Err(val))
+	}
+}
+
 func payloadBytes(v vector, addr string) ([]byte, string) {
+	if v.Form == "cps" {
+		var c cpsReply
+		json.Unmarshal(v.Payload, &c)
+		return cpsBytes(c), fmt.Sprintf("%s(%s)", c.Shape, c.Val)
+	}
 	if v.Form == "big" {
 		var b big
 		json.Unmarshal(v.Payload, &b)
@@ -85,9 +113,10 @@ func payloadBytes(v vector, addr string) ([]byte, string) {
 }
 
 type env struct {
-	cl *simredis.Cluster
-	px *sut.Redis
-	k  [2]string // a key owned by each node
+	cl  *simredis.Cluster
+	px  *sut.Redis
+	pxc *sut.Redis // a second processor with a compression config (enabled)
+	k   [2]string  // a key owned by each node
 }
 
 func newEnv() (*env, error) {
@@ -102,13 +131,19 @@ func newEnv() (*env, error) {
 	if !sut.WaitRefresh(px.Name, 3*time.Second) {
 		return nil, fmt.Errorf("slot table not loaded")
 	}
-	e := &env{cl: cl, px: px}
+	pxc, err := sut.StartRedis(sut.RedisOpts{Compression: &pbredis.Compression{Enable: true, Threshold: 32, Algorithm: pbredis.Compression_SNAPPY}}, cl.Addrs())
+	if err != nil {
+		return nil, err
+	}
+	sut.WaitRefresh(pxc.Name, 3*time.Second)
+	e := &env{cl: cl, px: px, pxc: pxc}
 	e.k[0], e.k[1] = cl.KeyFor(0, "w0-"), cl.KeyFor(1, "w1-")
 	return e, nil
 }
 
 func (e *env) close() {
 	sut.StopWithin(e.px.P, 3*time.Second)
+	sut.StopWithin(e.pxc.P, 3*time.Second)
 	e.cl.Close()
 }
 
@@ -237,6 +272,20 @@ func (e *env) runVector(id int, v vector) (rec record) {
 		}
 		rec.Witness = e.witness(other, 1)
 		return
+	case v.Ctx == "keyed-cps":
+		node.Script(&simredis.Scripted{Match: func(c string, a [][]byte) bool { return c == "get" }, Raw: raw, Times: 1})
+		c, err := sut.Dial(e.pxc.Addr)
+		if err != nil {
+			rec.Err = err.Error()
+			return
+		}
+		defer c.Close()
+		c.SendCmd("GET", e.k[0])
+		read(c, 4*time.Second)
+		// the compressing processor itself must still serve
+		if p, err := c.Do(2*time.Second, "PING"); err != nil || string(p.Str) != "PONG" {
+			rec.Witness = fmt.Sprintf("compressing processor not serving afterwards: %v %v", p, err)
+		}
 	case v.Ctx == "keyed" || v.Ctx == "scan":
 		cmd := "get"
 		if v.Ctx == "scan" {
@@ -326,7 +375,9 @@ func (e *env) runVector(id int, v vector) (rec record) {
 		}
 		return
 	}
-	rec.Witness = e.witness(other, 3)
+	if rec.Witness == "" {
+		rec.Witness = e.witness(other, 3)
+	}
 	rec.Recover = e.witness(0, 8)
 	return
 }
